@@ -61,6 +61,11 @@ class PeerSock(srvkit.FakeSock):
     def recv(self, n, flags=0):
         with self.cond:
             silent = self.ending == "silent" and not self.inbound and not self.closed
+            # the accept loop / the multiplex loop runs in the harness's thread: a recv() there that finds neither bytes nor
+            # an ending would make the whole server wait for this one (connected, quiet) peer
+            if not silent and self.rig is not None and self.ending is None and not self.inbound and not self.closed \
+                    and threading.current_thread().name == self.rig.main_thread:
+                silent = True
         if silent:
             # the peer stays connected and sends nothing more: a real recv() waits here (until the timeout, if one is set)
             if self.rig is not None:
@@ -147,11 +152,14 @@ class LoopSelector:
 
 
 class LoopRig(srvkit.Rig):
-    def __init__(self, servertype, poolsize=8, commtimeout=0.0):
-        super().__init__(servertype, poolsize=poolsize)
+    def __init__(self, servertype, poolsize=8, commtimeout=0.0, linger=None):
+        super().__init__(servertype, poolsize=poolsize, linger=linger)      # ITER_STREAM_LINGER, restored by Rig.close()
         from Pyro5 import config
         config.COMMTIMEOUT = commtimeout          # restored by Rig.close()
         config.MAX_MESSAGE_SIZE = 1 << 20
+        self.trap = Trap.get()
+        self.trap.armed = True
+        self.trap_mark = len(self.trap.attempts)
         self.loop_alive = True
         self.unsettled = False
         self.spun = False                         # a serving thread never became idle again
@@ -166,6 +174,20 @@ class LoopRig(srvkit.Rig):
         @server.expose
         class Poison(object):
             """methods raising exceptions whose serialisation fails in ways other than TypeError / ValueError / SerializeError"""
+            def ignore(self, x, token):
+                """takes any argument and does not look at it"""
+                conn = rig.ctx.client
+                with rig.lock:
+                    rig.execs.append((conn.sock.index if conn is not None else -1, token))
+                return token
+
+            def items(self, token):
+                """the result is an iterator that is NOT a generator (no close()): the daemon opens an item stream for it"""
+                conn = rig.ctx.client
+                with rig.lock:
+                    rig.execs.append((conn.sock.index if conn is not None else -1, token))
+                return iter([1, 2, 3])
+
             def boom(self, kind, token):
                 conn = rig.ctx.client
                 with rig.lock:
@@ -308,6 +330,10 @@ class LoopRig(srvkit.Rig):
                 return False
             time.sleep(0.0003)
 
+    def outbound(self):
+        """connects the process made to the trap endpoints since this rig exists: (address kind, thread)"""
+        return [("blackhole" if a == self.trap.blackhole else "closed-port", t) for a, t in self.trap.attempts[self.trap_mark:]]
+
     def accounting(self):
         if self.servertype == "thread":
             p = self.daemon.transportServer.pool
@@ -348,6 +374,59 @@ class LoopRig(srvkit.Rig):
             forget_types(registered)
             if self.servertype == "thread":
                 self.real_acceptsel.close()      # SocketServer_Threadpool.close() never closes its accept selector (an epoll fd)
+
+
+class Trap:
+    """harness-owned endpoints a hostile payload can point the daemon at: a listening socket that never answers (a connection
+    made to it is held silently for HOLD seconds, then dropped - the harness does not wait for real timeouts) and a port on
+    which nothing listens.  Every connect() the process makes to one of them is recorded by an audit hook: the daemon must
+    not connect out on behalf of a peer."""
+    HOLD = 0.15
+    instance = None
+
+    def __init__(self):
+        self.attempts = []
+        self.armed = False
+        self.listener = socket.socket(socket.AF_INET, socket.SOCK_STREAM)
+        self.listener.bind(("127.0.0.1", 0))
+        self.listener.listen(64)
+        self.blackhole = self.listener.getsockname()
+        s = socket.socket(socket.AF_INET, socket.SOCK_STREAM)
+        s.bind(("127.0.0.1", 0))
+        self.closed = s.getsockname()
+        s.close()
+        self.accepted = 0
+        threading.Thread(target=self._serve, daemon=True, name="c05-trap").start()
+        import sys
+
+        def hook(event, args):
+            if self.armed and event == "socket.connect":
+                addr = args[1]
+                if isinstance(addr, tuple) and tuple(addr[:2]) in (self.blackhole, self.closed):
+                    self.attempts.append((tuple(addr[:2]), threading.current_thread().name))
+        sys.addaudithook(hook)
+
+    def _serve(self):
+        while True:
+            try:
+                c, _ = self.listener.accept()
+            except OSError:
+                return
+            self.accepted += 1
+            threading.Thread(target=self._hold, args=(c,), daemon=True).start()
+
+    def _hold(self, c):
+        time.sleep(self.HOLD)
+        try:
+            c.close()
+        except OSError:
+            pass
+
+    @classmethod
+    def get(cls):
+        if cls.instance is None:
+            cls.instance = Trap()
+        return cls.instance
 
 
 class _Slots:
